@@ -27,9 +27,16 @@ def same_count_edit(rng, h, uniform_size=None, keep_connected=False, directed=Fa
         w = h.get_weight(old)
         h.remove_edge(old)
         h.add_edge(new, weight=w if h.is_weighted() else None)
-        if keep_connected and not (h.is_connected() and len(h.get_nodes()) == len(nodes)):
+        if keep_connected and not (connected_ref(h) and len(h.get_nodes()) == len(nodes)):
             h.remove_edge(new)
             h.add_edge(old, weight=w if h.is_weighted() else None)
             continue
         return {"removed": old, "added": new}
     return None
+
+
+def connected_ref(h):
+    """connectivity by union-find over the listed hyperedges (never the library's own is_connected)"""
+    from .refs import components
+
+    return len(components(list(h.get_nodes()), [tuple(e) for e in h.get_edges()])) == 1
